@@ -407,3 +407,13 @@ PROPS['C08'] = {'suites': [{'name': 'storage', 'quick': 5000, 'thorough': 100000
  'assumptions': ['capacity > 0 (capacity 0 is the recorded defect)',
                  'one creation in flight per controller (every kira caller holds &mut on the controller)',
                  'generation counters do not wrap']}
+
+PROPS['C09'] = {'suites': [{'name': 'stream', 'quick': 1500, 'thorough': 30000}],
+ 'level_text': 'TBD',
+ 'level_note': 'TBD',
+ 'assumptions': []}
+
+PROPS['C10'] = {'suites': [{'name': 'decthread', 'quick': 500, 'thorough': 5000}, {'name': 'stream', 'quick': 300, 'thorough': 3000}],
+ 'level_text': 'TBD',
+ 'level_note': 'TBD',
+ 'assumptions': []}
